@@ -184,6 +184,22 @@ class Repo:
         return sum(m.src.count("\n") for m in self.modules.values())
 
 
+def _mutated_names(st: ast.AST) -> List[str]:
+    out: List[str] = []
+    for x in ast.walk(st):
+        if isinstance(x, ast.Name) and isinstance(x.ctx, (ast.Store, ast.Del)):
+            out.append(x.id)
+        elif isinstance(x, (ast.Subscript, ast.Attribute)) and isinstance(x.ctx, (ast.Store, ast.Del)):
+            b = x.value
+            while isinstance(b, (ast.Subscript, ast.Attribute)):
+                b = b.value
+            if isinstance(b, ast.Name):
+                out.append(b.id)
+        elif isinstance(x, ast.Call) and isinstance(x.func, ast.Attribute) and isinstance(x.func.value, ast.Name):
+            out.append(x.func.value.id)
+    return out
+
+
 class Folder:
     """Constant folder for module-level / class-level bindings.
 
@@ -219,11 +235,10 @@ class Folder:
 
     def _stmt(self, st: ast.stmt) -> None:
         try:
-            if isinstance(st, ast.Assign) and len(st.targets) == 1:
+            if isinstance(st, ast.Assign) and len(st.targets) == 1 and isinstance(st.targets[0], ast.Name):
                 t = st.targets[0]
-                if isinstance(t, ast.Name):
-                    self.defs[t.id] = st
-                    self.env[t.id] = self.ev(st.value)
+                self.defs[t.id] = st
+                self.env[t.id] = self.ev(st.value)
             elif isinstance(st, ast.AnnAssign) and isinstance(st.target, ast.Name):
                 if st.value is not None:
                     self.defs[st.target.id] = st
@@ -239,6 +254,42 @@ class Folder:
                     self.env[st.target.id] = cur - rhs
                 else:
                     raise Unfoldable(norm(st))
+            elif isinstance(st, ast.Assign) and len(st.targets) == 1 and isinstance(st.targets[0], ast.Subscript) and isinstance(st.targets[0].value, ast.Name):
+                # TABLE[key] = value at definition time
+                nm = st.targets[0].value.id
+                cur = self.lookup(nm)
+                if not isinstance(cur, dict):
+                    raise Unfoldable(norm(st))
+                new = dict(cur)
+                new[self.ev(st.targets[0].slice)] = self.ev(st.value)
+                self.env[nm] = new
+            elif isinstance(st, ast.For) and not st.orelse:
+                # a definition-time loop over a foldable iterable
+                try:
+                    items = list(self.ev(st.iter))
+                    names = [st.target.id] if isinstance(st.target, ast.Name) else [e.id for e in st.target.elts] if isinstance(st.target, ast.Tuple) and all(isinstance(e, ast.Name) for e in st.target.elts) else None
+                    if names is None:
+                        raise Unfoldable(norm(st.target))
+                    for item in items:
+                        if isinstance(st.target, ast.Name):
+                            self.env[st.target.id] = item
+                        else:
+                            for k_, v_ in zip(names, item):
+                                self.env[k_] = v_
+                        for b in st.body:
+                            before = dict(self.failed)
+                            self._stmt(b)
+                            if self.failed != before:
+                                raise Unfoldable("loop body not foldable")
+                except Unfoldable as e:
+                    for nm in _mutated_names(st):
+                        self.failed[nm] = f"changed in a definition-time loop that could not be folded: {e}"
+                        self.env.pop(nm, None)
+            elif isinstance(st, (ast.While, ast.If, ast.With, ast.Try, ast.Delete)) or (isinstance(st, ast.AugAssign) and not isinstance(st.target, ast.Name)):
+                # not interpreted: whatever it may change is unknown from here on (never a silently stale table)
+                for nm in _mutated_names(st):
+                    self.failed[nm] = f"changed by `{short(st, 40)}` at definition time"
+                    self.env.pop(nm, None)
             elif isinstance(st, ast.Expr) and isinstance(st.value, ast.Call):
                 c = st.value
                 f = c.func
